@@ -173,6 +173,9 @@ cfg("MC_schema_models2.cfg", {"MaxSteps": "= 2", "BreakSteps": "<- Never", "Emit
 cfg("MC_schema_breaks.cfg", {"MaxSteps": "= 1", "BreakSteps": "= 1", "EmitModels": "= FALSE"}, SCHEMA_INV)
 cfg("MC_schema_breaks0.cfg", {"MaxSteps": "= 0", "BreakSteps": "= 0", "EmitModels": "= FALSE"}, SCHEMA_INV)
 
+# R3 (several requests): small alphabet, so that most drawn documents define and spread fragments (same names F1 / F2, different bodies)
+cfg("MC_faults_simf.cfg", fault_consts(FieldAlpha="<- AlphaSimF", Aliases='= {""}', Conds='= {"T", "Query"}', DirOpts="<- NoDirs",
+    MaxSel="= 7", MaxDepth="= 3", MaxFrags="= 2", MaxOps="= 1", MaxFaults="= 1"), FAULT_INV, spec="SpecF")
 # ---- R3 (schedules): large faulty requests drawn by TLC in simulation mode -----------------------------
 cfg("MC_faults_sim.cfg", fault_consts(FieldAlpha="<- AlphaAll", Aliases='= {"", "z"}', Conds='= {"", "T", "P", "A", "B", "C", "U"}', DirOpts="<- NoDirs",
     ArgOpts="<- ArgOptsStd", MaxSel="= 9", MaxDepth="= 4", MaxFrags="= 1", MaxOps="= 1", OpTypes='= {"query", "mutation"}', MaxFaults="= 1"), FAULT_INV, spec="SpecF")
